@@ -134,7 +134,7 @@ def gen_cases(tier, seed):
             # the same history through the real TCP / WebSocket listeners (their own disconnect paths, their
             # own delivery of the notifications)
             kinds = [rng.choice("tw") for _ in range(12)]
-            cases.append(("t%d" % i, ["P"], netfam.to_net(build(seq), kinds)))
+            cases.append(("t%d" % i, ["P"], netfam.to_net(build(seq), kinds, rng, 0.15)))
             dist["transport"] = dist.get("transport", 0) + 1
     dist["random"] = nrand
     return cases, dist
@@ -291,6 +291,7 @@ def oracle(case, io, mo):
     obs = split_obs(io)
     if case[0].startswith("t"):
         fails += netfam.transport_failures(case, obs)
+        case = netfam.as_disc(case)
     subs = {}          # (sid, key) -> number of subscriptions
     closed = set()
     held = {}          # sid -> key -> (version, value) highest-versioned changed-version held
